@@ -124,7 +124,7 @@ impl Property for C02Prop {
         "C02"
     }
     fn rule(&self) -> &'static str {
-        "texts from (1) 96 instruction spellings the printer never emits (radix / exponent / separator literals, i64 extremes, 1.0-style reals, redundant parentheses, nested negation, right- and left-nested - / ^, complex literals, bare memory names, upper-case pi / functions, implicit lengths, named measurements, DELAY forms, NONBLOCKING forms) and 16 definition spellings (tab-indented DEFCAL, DEFCAL with modifiers / MEASURE forms, all four DEFGATE kinds, DEFCIRCUIT, DEFFRAME, DEFWAVEFORM), 1..8 (quick) / 1..14 (thorough) per program; (2) the printed text of API-built programs of every instruction and definition kind (the C04 generator); (3) the repository's .quil corpus in groups of 6 instructions; (4) instructions of every expression-bearing kind whose expressions (depth <= 3/5, full literal zoo) are written by the harness's own printer with redundant parentheses, blanks, upper-case names, bare memory names and alternative number spellings; with probability 1/4 every quoted string of the text is replaced (1 in 2 each) by 1..4 pieces from {\\\", \\\\, letters, blank, #, ;, newline, e-acute, %, @, :, 0, -}; each restyled with probability 1/2 (comments, blank lines, trailing blanks, tab indents, ';' separators) and hit by one token / byte mutation with probability 1/4. Non-trivial = the text parses to a program with an instruction other than NOP/HALT/WAIT/FENCE/RESET; distinct by text hash."
+        "texts from (1) 96 instruction spellings the printer never emits (radix / exponent / separator literals, i64 extremes, 1.0-style reals, redundant parentheses, nested negation, right- and left-nested - / ^, complex literals, bare memory names, upper-case pi / functions, implicit lengths, named measurements, DELAY forms, NONBLOCKING forms) and 17 definition spellings (tab-indented DEFCAL, DEFCAL with modifiers / MEASURE forms, all four DEFGATE kinds incl. Pauli terms whose arguments are not in signature order, DEFCIRCUIT, DEFFRAME, DEFWAVEFORM), 1..8 (quick) / 1..14 (thorough) per program; (2) the printed text of API-built programs of every instruction and definition kind (the C04 generator); (3) the repository's .quil corpus in groups of 6 instructions; (4) instructions of every expression-bearing kind whose expressions (depth <= 3/5, full literal zoo) are written by the harness's own printer with redundant parentheses, blanks, upper-case names, bare memory names and alternative number spellings; with probability 1/4 every quoted string of the text is replaced (1 in 2 each) by 1..4 pieces from {\\\", \\\\, letters, blank, #, ;, newline, e-acute, %, @, :, 0, -}; each restyled with probability 1/2 (comments, blank lines, trailing blanks, tab indents, ';' separators) and hit by one token / byte mutation with probability 1/4. Non-trivial = the text parses to a program with an instruction other than NOP/HALT/WAIT/FENCE/RESET; distinct by text hash."
     }
     fn guided(&self) -> bool {
         false
